@@ -3,6 +3,14 @@ import json, os, sys
 HERE = os.path.dirname(os.path.dirname(os.path.abspath(__file__)))
 
 CHECKS = {
+    "C02": ("model_checking", "3 C02",
+            "BFS over the record lifecycle alphabet (writes, read, create/commit/discard patch, close with/without commit, reopen r/r+/a by name and by permuted list, merge) on real IH5Record and IH5MFRecord objects, deduplicated on open-state + raw container shapes; a monitor after every transition checks sha256 identity of every file ever committed (incl. manifest sidecars) and re-opens the committed file sets in place.",
+            "Committed = user block carries hdf5_hashsum (documented field, read by the harness's own parser); mode 'w' excluded as the property says; tmpfs.",
+            "explicit-state BFS of the real implementation with a byte-identity monitor"),
+    "C05": ("model_checking", "3 C05",
+            "Every deduplicated source record of the bounded tree exploration (IH5Record <=4 containers, IH5MFRecord) is merged; merged tree vs. overlay view, merged user block/manifest vs. source, source untouched on disk and through the open object, refusal with uncommitted changes and with stubs; then every follow-up patch (1-2 ops of the alphabet) made on the source is opened on top of the merged container and compared.",
+            "Overlay view right before the merge is the reference (C01 owns overlay correctness); bounded depth/alphabet.",
+            "explicit-state enumeration of source records x exhaustive follow-up patches on the real code"),
     "C03": ("model_checking", "3 C03",
             "Every deduplicated record state of the bounded tree exploration (IH5Record <=4 containers, IH5MFRecord) is closed and reopened by name and by the explicit file list in every permutation, with r and r+, and discard_patch is compared with the view at the last commit; plus the complete matrix on-disk situation x open mode x argument form x class x prefix-related neighbour records with directory hashes before/after.",
             "View before close is the reference (differential); mode table is the h5py.File contract (validated against h5py on single files); tmpfs.",
